@@ -77,6 +77,19 @@ def chain_after_partial_readall(kind, n):
     return h + opens + closes + [E("CbE", op=1), E("PollE", err="nil", n=1)]
 
 
+def chain_with_failing_writes(kind, n):
+    """Datagram writes re-issued from their callbacks, four of five too large to send: an operation that fails
+    at once is an immediate completion as well and has to be counted against the dispatch limit."""
+    h = [E("Reset", kinds=[kind], cls="chain", lim=32, n=0)]
+    opens, closes = [], []
+    for i in range(1, n + 1):
+        big = i % 5 != 0
+        opens += [E("Call", api="writetobig" if big else "writeto", o=1, op=i, dir="W", n=1),
+                  E("CbB", op=i, err="errno" if big else "nil", n=0 if big else 1)]
+        closes = [E("CbE", op=i), E("Ret", op=i)] + closes
+    return h + opens + closes
+
+
 def long_chains(tier):
     hs = []
     lens = [40] if tier == "quick" else [40, 100]
@@ -97,6 +110,8 @@ def long_chains(tier):
     hs.append(chain(["sock", "reg"], [(1, "W")] * 65 + [(2, "R")], 66))
     for k in ("sock", "pipeR", "adp"):
         hs.append(chain_after_partial_readall(k, 40))
+    for k in ("pkt", "mcp"):
+        hs.append(chain_with_failing_writes(k, 120))
     return hs
 
 
